@@ -479,8 +479,8 @@ static void case_pointers(vf_rng *r)
 	vf_sample("pointer_array<int> x2: %d copy/insert/compact/unused operations", nops);
 }
 
-static uint64_t n_arr(void) { return vf_thorough ? 300000 : 40000; }
-static uint64_t n_typed(void) { return vf_thorough ? 200000 : 20000; }
+static uint64_t n_arr(void) { return vf_thorough ? 900000 : 40000; }
+static uint64_t n_typed(void) { return vf_thorough ? 600000 : 20000; }
 static uint64_t n_uniq(void) { return vf_thorough ? 100000 : 10000; }
 static uint64_t n_map(void) { return vf_thorough ? 100000 : 10000; }
 static uint64_t n_ptr(void) { return vf_thorough ? 100000 : 10000; }
